@@ -40,6 +40,9 @@ ASSUMPTIONS = ["the evaluated shapes are representative only of themselves (boun
 
 def _take(rule_out: Rule, rules, rid: str, pred):
     src = next((r for r in rules if r.rid == rid), None)
+    if getattr(rules, "broken", None):
+        rule_out.floor = 0
+        rule_out.note(f"the analysis these obligations are shared from stopped early ({rules.broken}); what it had completed is kept, the floor is waived")
     if src is None:
         return
     for o in src.obligations:
@@ -52,8 +55,8 @@ def _take(rule_out: Rule, rules, rid: str, pred):
 
 def run(ctx):
     from . import c07, c11, c13
-    r07 = c07.run(ctx)
-    r11 = c11.run(ctx)
+    r07 = ctx.other(c07)
+    r11 = ctx.other(c11)
     rules = []
     r1 = Rule("C08", "C08.R1", "each text a question carries is filed under its own language (or written inline)", floor=100,
               necessary="a label / hint / guidance text filed under another language, or dropped, is shown to the wrong users or to nobody")
@@ -73,7 +76,7 @@ def run(ctx):
     spacer_column_obligations(ctx, r4, "C08.R4")
     # translated bind messages written with the bind group (bind::jr:constraintMsg::French): the attribute name keeps its
     # spelling and the language its place (shared with C13.R3's header cases)
-    _take(r4, c13.run(ctx), "C13.R3", lambda c: (c.startswith("process_header[") and ("jr:" in c or "::fr" in c or "image" in c))
+    _take(r4, ctx.other(c13), "C13.R3", lambda c: (c.startswith("process_header[") and ("jr:" in c or "::fr" in c or "image" in c))
           or c.startswith("dealias_and_group_headers[language names") or c.startswith("dealias_and_group_headers[the same language"))
     rules.append(r4)
     r5 = Rule("C08", "C08.R5", "unsuffixed cells are grouped under the survey's default language", floor=10,
